@@ -65,7 +65,29 @@ def _c25(ctx):
     if not unlisted and mism > 0.01 * max(1, r.get("evaluations", 1)):
         raise lib.ToolError("%d of %d client runs differ from Rrdp.tla (%s): model fidelity problem"
                             % (mism, r.get("evaluations", 0), variant))
+    # which way an update goes (nothing / deltas / snapshot and why): DeltaPlan.tla, not a listed property; the rows are further
+    # C25 evaluations, differences from the plan are recorded as divergences from the model and do not decide the verdict
+    lib.tlc(ctx, "mc_deltaplan", "MC_DeltaPlan.tla", "MC_DeltaPlan.cfg", workers=2, timeout=600)
+    _rejected(ctx, "mc_deltaplan_bad_count", "MC_DeltaPlan.tla", "MC_DeltaPlan_bad_count_off_by_one.cfg", "DeltasWheneverUsable", timeout=600)
+    _rejected(ctx, "mc_deltaplan_bad_first", "MC_DeltaPlan.tla", "MC_DeltaPlan_bad_no_first_check.cfg", "DeltasExactlyTheMissingOnes", timeout=600)
+    _rejected(ctx, "mc_deltaplan_observation", "MC_DeltaPlan.tla", "MC_DeltaPlan_observation.cfg", "UpToDateCopyNeedsNoSnapshot", timeout=600)
+    gen = lib.tlc(ctx, "gen_deltaplan", "MC_DeltaPlan.tla", "Gen_DeltaPlan.cfg", workers=1, timeout=600, count=False)
+    plan_rows = ctx.path("deltaplan.ndjson")
+    n_plan = lib.extract_replays(gen["out"], plan_rows)
+    if n_plan == 0:
+        raise lib.ToolError("no rows exported by Gen_DeltaPlan.cfg")
+    plan = lib.vh(ctx, "rrdp", plan_rows, opts={"mode": "plan", "limit": n_plan if t else 500}, cacheable=True, timeout=3000,
+                  out_name="rrdp-plan")["per_property"]["C25"]
+    pn = plan.get("notes", {})
+    ctx.extra["deltaplan_rows_exported"] = n_plan
+    if pn.get("plan_rows_differing_from_DeltaPlan", 0):
+        lib.log("  note: %d of %d update plans differ from DeltaPlan.tla (recorded in the evidence, no verdict)"
+                % (pn["plan_rows_differing_from_DeltaPlan"], pn.get("plan_rows", 0)))
+    r = lib.merge_results(r, plan)
     ctx.assumptions += [
+        "DeltaPlan.tla (which way an update goes: nothing / the missing deltas / the snapshot and the reason reported) is checked by "
+        "TLC and replayed row by row (quick: 500 of the rows) with the double's validators off; the rows count as C25 evaluations "
+        "(copy equal to the announced version), the plan itself is no listed property: differences are model divergences",
         "a client run is collector::Run::repository(ca) for a CA certificate carrying the double's rpkiNotify URI; it returning an "
         "RRDP repository is taken as 'reported successful and used in this run' (the validation reads RRDP data only through it)",
         "the server double answers through hook H1; 4xx/5xx stand for failed requests; object contents are opaque bytes "
